@@ -233,6 +233,21 @@ def law_regex(rnd, ev, mods, imps, acc, forced=None):
         acc.count("regex_rules_with_the_pattern_passed_by_keyword")
         if ok != oc:
             HUB.violation("C11", f"regex-by-keyword-differs:{side}", f"the regex rule gave {oc}, the same rule with its patterns passed by keyword gave {ok}", {"case": case, "compact": compact})
+    if not forced and side in ("subject", "object") and rnd.random() < 0.1:
+        # the same regular expression twice in one batch: the rule with the pattern once
+        from pytestarch import Rule
+
+        def twice():
+            rx = rx1 if side == "subject" else rx2
+            r = Rule().modules_that()
+            r = r.have_name_matching([rx, rx]) if side == "subject" else getattr(r, FILTER_METHOD[other_s[0]])(other_s[1])
+            r = getattr(getattr(r, verb)(), IMPORT_METHOD[(d, exc)])()
+            return r.have_name_matching([rx, rx]) if side == "object" else getattr(r, FILTER_METHOD[other_o[0]])(other_o[1])
+
+        o2x, _m2x, _e2x = outcome(twice, ev, acc)
+        acc.count("batches_naming_the_same_pattern_twice")
+        if o2x != oc:
+            HUB.violation("C11", f"regex-named-twice-differs:{side}", f"the rule with one regex gave {oc}, with the same regex twice in the batch {o2x}", {"case": case, "compact": compact})
     acc.hist("regex_kind", f"{k1 if side != 'object' else k2}:{side}")
     if unmatched:
         acc.count("unmatched_regex_cases")
@@ -310,6 +325,9 @@ def law_partial_list(rnd, ev, mods, imps, acc, forced=None):
     nothing = rnd.random() < 0.5
     p1 = "*" + a.rsplit(".", 1)[-1]
     p2 = "*no_such_module_zz" if nothing else b + "*"
+    if not nothing and rnd.random() < 0.15:
+        p2 = p1  # the same partial name twice in one batch: the batch of one
+        acc.count("batches_naming_the_same_pattern_twice")
     verb, d, exc = _verb_dir(rnd)
     other = _other(rnd, mods, "named")
     side = rnd.choice(["subject", "object"])
